@@ -53,6 +53,15 @@ def cases():
             u.sample(150)
             yield 'Union[unit={},{}]/split+sampled'.format(
                 unit, cls.__name__), Union, u
+    # not restricted to the unit cube, members reaching beyond its faces
+    edge = np.vstack([rngp.normal(size=(200, 3)) * 0.05 + [0.02, 0.5, 0.97],
+                      rngp.normal(size=(200, 3)) * 0.05 + [0.5, 1.0, 0.5]])
+    for unit in (True, False):
+        u = Union.compute(edge, n_points_min=20, unit=unit, rng=r())
+        u.split()
+        u.sample(200)
+        yield 'Union[unit={}]/members cut by the cube faces'.format(unit), \
+            Union, u
     # more than ten members: names bound_10.. sort before bound_2
     many = np.vstack([rngp.normal(size=(60, 2)) * 0.004 + c for c in
                       [(0.1 + 0.2 * (i % 4), 0.15 + 0.22 * (i // 4))
@@ -82,6 +91,8 @@ with tempfile.TemporaryDirectory() as d:
             with h5py.File(path, 'r') as f:
                 b2 = cls.read(f['b'], rng=g)
             pr = probe[:, :b.n_dim] if hasattr(b, 'n_dim') else probe
+            # also probe a margin around the unit cube
+            pr = np.vstack([pr, pr * 1.4 - 0.2])
             if not np.array_equal(b.contains(pr), b2.contains(pr)):
                 bad.append(dict(case=name, what='contains differs'))
             for o in (b, b2):
